@@ -99,7 +99,18 @@ def run(ctx):
     if os.environ.get("VERIF_C11_REPLACE"):
         ctx.c11_replace = dict(kv.split("=", 1) for kv in os.environ["VERIF_C11_REPLACE"].split(","))
 
+    def pool_stage(ctx, mult, suffix, off):
+        # several KeepClients of one process sharing the package-level HTTP client pool: which timeouts / TLS setting
+        # each one is handed (judged: the chosen configuration, never wall time)
+        npool = {"quick": 160, "thorough": 4000}[ctx.tier]
+        ctx.stage("c11pool" + suffix, PKG, "keepclient", FILES + ["C11/zz_verif_c11pool_test.go"], "TestVerifC11Pool$", npool * mult,
+                  HDR.format(imports="model.KC_discover model.C11_model model.C11_pool") + "Notation case := pcase.\n", seed_offset=off, shard=40,
+                  env={"VERIF_STAGE": "c11pool" + suffix}, replace=ctx.c11_replace,
+                  footer="Definition R := Eval vm_compute in pool_failing cases.\nPrint R.\n"
+                         "Definition NC := Eval vm_compute in List.length cases.\nPrint NC.\n")
+
     def stages(ctx, mult, suffix, off):
+        pool_stage(ctx, mult, suffix, off)
         if ctx.tier == "quick":
             # cases 0..431: every assignment of the 11 outcomes of the quantifier to 1 service x <= 2 rounds (want 1..3,
             # disk/proxy); then random cases
@@ -112,7 +123,7 @@ def run(ctx):
             one_stage(ctx, "c11exh2", 0, {"VERIF_C11_EXH": "2", "VERIF_C11_EXH_ONLY": "1"}, 1500, off)
             one_stage(ctx, "c11exh3", 0, {"VERIF_C11_EXH": "3", "VERIF_C11_EXH_ONLY": "1"}, 3000, off, timeout=2400)
 
-    return standard(ctx, "C11", ["model/C11_run.vo"], stages,
+    return standard(ctx, "C11", ["model/C11_run.vo", "model/C11_pool.vo"], stages,
                     rule="random service lists (0-5 writable, 0-2 read-only, disk/proxy/mixed, duplicate URLs), in 65% of the random cases loaded "
                          "after 1-2 earlier lists (read_only flips with unchanged uuids/URLs, all-writable/all-read-only, service removed/added, "
                          "URL or type changed, same, disjoint), want 1-3, retries 0-3, "
